@@ -212,6 +212,12 @@ TShift  == Is("shift") /\ Judging /\ Shift(Line.d) /\ Consume
 TEvict  == /\ Is("evict") /\ Judging
            /\ IF store[Line.r].present THEN Evict(Line.r) ELSE (UNCHANGED <<now, origin, store, flight, creq, contacts, nextX, served>> /\ last' = {})
            /\ Consume
+TUnlink == /\ Is("unlink") /\ Judging
+           \* ("nofile": there was nothing to remove; then the specification must not hold an intact entry either)
+           /\ (F(Line, "res", "") = "nofile") => ~(store[Line.r].present /\ ~store[Line.r].lost)
+           /\ IF store[Line.r].present /\ ~store[Line.r].lost /\ Unlinks THEN Unlink(Line.r)
+              ELSE (UNCHANGED <<now, origin, store, flight, creq, contacts, nextX, served>> /\ last' = {})
+           /\ Consume
 TChange == Is("ochange") /\ Judging /\ OriginChange(Line.r, Line.form, Line.val) /\ Consume
 TDisc   == /\ Is("disconnect") /\ Judging /\ F(Line, "res", "") = ""
            /\ Disconnect(Line.c) /\ Consume
@@ -223,7 +229,7 @@ TraceInit ==
     /\ served = [r \in Res |-> {}] /\ last = {}
     /\ l = 1 /\ bad = [line |-> 0] /\ bads = <<>> /\ TLCSet(1, [l |-> 1, bad |-> [line |-> 0], bads |-> <<>>])
     /\ TLCSet(2, "init")
-TraceNext == TReset \/ TAfterBad \/ TInit \/ TNoop \/ TNoContact \/ TSend \/ TReply \/ TShift \/ TEvict \/ TChange \/ TDisc
+TraceNext == TReset \/ TAfterBad \/ TInit \/ TNoop \/ TNoContact \/ TSend \/ TReply \/ TShift \/ TEvict \/ TUnlink \/ TChange \/ TDisc
 TraceSpec == TraceInit /\ [][TraceNext]_tvars
 Report == LET r == TLCGet(1) IN /\ PrintT(<<"TRACE-DBG", TLCGet(2)>>)
                                 /\ PrintT(<<"TRACE-ALL", r.bads>>)
